@@ -235,7 +235,8 @@ def roundtrip(case, fixes=(), rounds=None, want_obs=False, propagate_pair=None):
                     kw = {'source': propagate_pair[0], 'destination': propagate_pair[1]}
                 with c08.RefEstimates() as refest:
                     net, req, ref = designed_network(eq, net, **kw)
-                ob['ref_gain'] = dict(refest.seen)
+                ob['ref_gain'] = dict(refest.pad)
+                ob['ref_gain_walk'] = dict(refest.walk)
                 if want_obs:
                     ob['after'], _ = c08.extract_lines(net)
                     ob['rgain'] = {n.uid: float(getattr(n, 'estimated_gain', 0.0)) for n in net.nodes()
@@ -387,7 +388,8 @@ def line_amp_term(case, ob, ln, cfg):
     ptot = pref + 10 * math.log10(nch)
     order_flag = True
     rg1 = sorted(ob.get('ref_gain', {}).items())
-    term = (f'run_amps ({c08.cfg_term(cfg, rg1)}) ({s}) {listlit(lib)} {listlit(sel)} {listlit(rg)} {listlit(ops)} '
+    rgn = [f'({strlit(u)}%string, {qlit(g)})' for u, g in sorted(ob.get('ref_gain_walk', {}).items())]
+    term = (f'run_amps ({c08.cfg_term(cfg, rg1)}) ({s}) {listlit(lib)} {listlit(sel)} {listlit(rg)} {listlit(rgn)} {listlit(ops)} '
             f'{qlit(d0)} {qlit(ptot)} ({c08.line_term(ln, order_flag)})')
     return term, amps
 
